@@ -13,6 +13,7 @@ A property module (cocosim/props/cNN.py) exposes an object with
 """
 import collections
 import concurrent.futures
+import concurrent.futures.process
 import faulthandler
 import hashlib
 import json
